@@ -88,9 +88,10 @@ func c20Gzip(plain []byte) []byte {
 	return buf.Bytes()
 }
 
-// c20DamageGz applies trunc:<permille> / flip:<permille> to a gzip stream.
+// c20DamageGz applies trunc:<permille> / flip:<permille> / truncabs:<bytes kept> to a gzip stream
+// (pset is damage of the plain bytes, applied before).
 func c20DamageGz(gz []byte, damage string) ([]byte, error) {
-	if damage == "none" {
+	if damage == "none" || strings.HasPrefix(damage, "pset:") {
 		return gz, nil
 	}
 	parts := strings.SplitN(damage, ":", 2)
@@ -103,6 +104,11 @@ func c20DamageGz(gz []byte, damage string) ([]byte, error) {
 	}
 	pos := len(gz) * pm / 1000
 	switch parts[0] {
+	case "truncabs":
+		if pm > len(gz) {
+			pm = len(gz)
+		}
+		return gz[:pm], nil
 	case "trunc":
 		if pos > len(gz) {
 			pos = len(gz)
@@ -120,6 +126,7 @@ func c20DamageGz(gz []byte, damage string) ([]byte, error) {
 }
 
 // c20.parse consumer entCap errCap deadlineMs src gzdamage seed stall text
+//   (src: plain | gz | read | read2 = two dumps opened with uniprot.Read before either is consumed)
 //   -> closed nErr nDel (acc names seq)* traceSyms nTrace (acc names seq)* gzErr plainLen isPrefix sticky
 //   |  openerr gzOpenErr            (src read, uniprot.Read returned an error)
 func c20Parse(args []string) ([]string, error) {
@@ -136,6 +143,16 @@ func c20Parse(args []string) ([]string, error) {
 		return nil, fmt.Errorf("bad numbers")
 	}
 	src, gzDamage, text := args[4], args[5], []byte(args[8])
+	if strings.HasPrefix(gzDamage, "pset:") {
+		// byte-level damage of the plain stream: pset:<position>:<byte value>
+		var p, b int
+		if _, err := fmt.Sscanf(gzDamage, "pset:%d:%d", &p, &b); err != nil {
+			return nil, err
+		}
+		if p >= 0 && p < len(text) {
+			text[p] = byte(b)
+		}
+	}
 
 	// the byte stream the decoder will see, and what our own gzip reader makes of it
 	gzErr, plainLen, isPrefix := "0", len(text), "1"
@@ -144,7 +161,7 @@ func c20Parse(args []string) ([]string, error) {
 	switch src {
 	case "plain":
 		stream = func() io.Reader { return bytes.NewReader(text) }
-	case "gz", "read":
+	case "gz", "read", "read2":
 		var err error
 		gzBytes, err = c20DamageGz(c20Gzip(text), gzDamage)
 		if err != nil {
@@ -176,13 +193,15 @@ func c20Parse(args []string) ([]string, error) {
 
 	var entries chan uniprot.Entry
 	var errs chan error
+	var secondOK chan bool
+	var startSecond func()
 	done := make(chan interface{}, 1)
 	switch src {
 	case "plain", "gz":
 		r := stream()
 		if r == nil {
 			// gzip header unreadable: nothing to hand to Parse (uniprot.Read reports this as its own error)
-			return []string{"openerr", "1"}, nil
+			return []string{"openerr", "1", "0"}, nil
 		}
 		entries = make(chan uniprot.Entry, entCap)
 		errs = make(chan error, errCap)
@@ -190,7 +209,7 @@ func c20Parse(args []string) ([]string, error) {
 			defer func() { done <- recover() }()
 			uniprot.Parse(r, entries, errs)
 		}()
-	case "read":
+	case "read", "read2":
 		f, err := os.CreateTemp(c13TmpDir(), "c20-*.xml.gz")
 		if err != nil {
 			return nil, err
@@ -202,16 +221,91 @@ func c20Parse(args []string) ([]string, error) {
 			return nil, err
 		}
 		f.Close()
+		before := runtime.NumGoroutine()
 		ce, cr, rerr := uniprot.Read(path)
 		if rerr != nil {
+			// Read reports a file it cannot open as gzip through its error result; the channels it returns
+			// are open and nothing will ever arrive on them.  Check that, and that no goroutine was started.
 			open := "0"
 			if _, err := gzip.NewReader(bytes.NewReader(gzBytes)); err != nil {
 				open = "1"
 			}
-			return []string{"openerr", open}, nil
+			leaked := "0"
+			time.Sleep(2 * time.Millisecond)
+			if runtime.NumGoroutine() > before {
+				leaked = "1"
+			}
+			select {
+			case <-ce:
+				leaked = "1" // something arrived, or the channel was closed by somebody
+			case <-cr:
+				leaked = "1"
+			default:
+			}
+			return []string{"openerr", open, leaked}, nil
 		}
 		entries, errs = ce, cr
 		done <- nil
+		if src == "read2" {
+			// HISTORY: a SECOND dump (the same document with every accession prefixed by "B") is opened with
+			// uniprot.Read before anything of the first has been consumed; the first is then consumed and
+			// reported as usual, the second is drained afterwards and must be exactly what our own decoding of
+			// its text gives — otherwise the first is reported as not closed.
+			textB := bytes.ReplaceAll(text, []byte("<accession>"), []byte("<accession>B"))
+			fb, err := os.CreateTemp(c13TmpDir(), "c20b-*.xml.gz")
+			if err != nil {
+				return nil, err
+			}
+			pathB := fb.Name()
+			defer os.Remove(pathB)
+			if _, err := fb.Write(c20Gzip(textB)); err != nil {
+				fb.Close()
+				return nil, err
+			}
+			fb.Close()
+			ceB, crB, errB := uniprot.Read(pathB)
+			if errB != nil {
+				return nil, fmt.Errorf("second Read failed: %v", errB)
+			}
+			_, wantB, _ := c20Trace(bytes.NewReader(textB))
+			secondOK = make(chan bool, 1)
+			startSecond = func() {
+				var gotB []uniprot.Entry
+				nErrB := 0
+				ok := true
+				to := time.After(time.Duration(deadlineMs) * time.Millisecond)
+			loopB:
+				for ceB != nil || crB != nil {
+					select {
+					case e, open := <-ceB:
+						if !open {
+							ceB = nil
+						} else {
+							gotB = append(gotB, e)
+						}
+					case _, open := <-crB:
+						if !open {
+							crB = nil
+						} else {
+							nErrB++
+						}
+					case <-to:
+						ok = false
+						break loopB
+					}
+				}
+				if nErrB != 0 || len(gotB) != len(wantB) {
+					ok = false
+				} else {
+					for i := range gotB {
+						if strings.Join(c20Entry(gotB[i]), "\x00") != strings.Join(c20Entry(wantB[i]), "\x00") {
+							ok = false
+						}
+					}
+				}
+				secondOK <- ok
+			}
+		}
 	}
 
 	rng := rand.New(rand.NewSource(seed))
@@ -315,6 +409,13 @@ func c20Parse(args []string) ([]string, error) {
 			}
 		case <-time.After(5 * time.Second):
 			closed = false
+		}
+	}
+
+	if startSecond != nil {
+		startSecond()
+		if !<-secondOK {
+			closed = false // the second dump, opened while the first was unread, did not come through intact
 		}
 	}
 
